@@ -26,7 +26,8 @@ TECHNIQUE = 'explicit-state BFS over operation histories on real containers/mode
 RULE = ('BFS to depth 2 (quick) / 3 (thorough) over ~400 operations (9 operation kinds x names {existing float/int/str/bool, unknown, near-miss, new} x '
         '27 operand shapes) on 3 object kinds; states deduplicated by canonical observation; traces = transitions whose stored result was compared '
         'with the reference dict; plus, under strict=True, every edit-distance-1 near-miss of every variable, every name resolvable on the class and every private slot name (hint compared with a difflib reference); non-trivial = transition that changes the observation or raises'
-        " Label slices whose bound is a falsy label (0, '', 0.0) inside the span: 4 spans x 2 objects x 25 bound pairs, read and assignment.")
+        " Label slices whose bound is a falsy label (0, '', 0.0) inside the span: 4 spans x 2 objects x 25 bound pairs, read and assignment."
+        ' Sharing family: 6 assignment paths (values setter included) x {sibling array, caller array} x 5 objects; strict= given to the constructor then toggled by attribute.')
 ASSUMPTIONS = [
     'operands NumPy broadcasts (length-1, (1,n), (n,1)) may succeed or raise: only the invariant is demanded',
     'bulk operations (values=, replace_values with several names) that raise are only required to keep the invariant',
@@ -750,6 +751,32 @@ def run_sharing(case):
     held = np.array([10.0 + k for k in range(n)])
     source = obj['N2'] if case['source'] == 'sibling' else held
     path = case['path']
+    if path == 'values':
+        # the whole stack replaced from a two-dimensional array of the variables' own dtype that the caller keeps (and gives to a second object)
+        try:
+            stack = np.array(obj.values)
+        except Exception:
+            return out
+        if stack.dtype != float or stack.size == 0:
+            return out
+        kept = stack + 1.0
+        twin = build(case['kind'])
+        twin.add_variable('N1', 0.0)
+        twin.add_variable('N2', [0.5 * k for k in range(n)])
+        try:
+            obj.values = kept
+            twin.values = kept
+        except Exception as e:
+            return [('sharing:values:%s' % type(e).__name__, 'accepted', repr(e)[:100], 'a stack of the right shape and dtype is refused')]
+        want = kept.copy()
+        kept[0, 0] = -99.0
+        if np.array(obj.values).tolist() != want.tolist():
+            return [('sharing:values:caller', want[0].tolist(), np.array(obj.values)[0].tolist(), 'after `values = array` a write to the array shows in the object')]
+        first = (list(getattr(obj, 'names', None) or obj.index))[0]
+        obj[first, obj.span[1]] = 123.0
+        if np.array(twin.values).tolist() != want.tolist() or kept[0, 1] == 123.0:
+            return [('sharing:values:second-object', want[0].tolist(), np.array(twin.values)[0].tolist(), 'two objects given the same array through `values` share storage')]
+        return out
     try:
         if path == 'setattr':
             obj.N1 = source
@@ -793,7 +820,7 @@ def run_block(block, tier, seed):
                     acc.violation(key, case, exp, obs, what)
         for kind in _KINDS:
             for source in ('sibling', 'caller'):
-                for path in ('setattr', 'setitem', 'replace_values', 'label-slice', 'add_variable'):
+                for path in ('setattr', 'setitem', 'replace_values', 'label-slice', 'add_variable', 'values'):
                     case = {'kind': kind, 'source': source, 'path': path, 'family': 'sharing'}
                     acc.evaluations += 1
                     acc.nontrivial += 1
